@@ -28,6 +28,7 @@ func main() {
 	keep := fs.Bool("keep", false, "keep SMT files")
 	verbose := fs.Bool("v", false, "verbose")
 	timeout := fs.Int("timeout", 0, "per-query timeout seconds")
+	schema := fs.String("schema", "", "use the schema contract of this property")
 	fs.Parse(os.Args[2:])
 	if t := os.Getenv("VERIF_TIER"); t != "" && cmd == "check" {
 		*tier = t
@@ -61,11 +62,30 @@ func main() {
 	switch cmd {
 	case "verify":
 		con := e.Contracts[*fn]
-		if con == nil {
-			con = e.schemaContract(*fn)
+		if *schema != "" {
+			all := e.contractsFor(*schema)
+			if *fn == "" {
+				bad := 0
+				for _, k := range sortedKeys(all) {
+					res := e.verifyOne(k, all[k], o)
+					n := 0
+					for _, g := range res.Goals {
+						if g.Status != "proved" {
+							n++
+						}
+					}
+					if n > 0 || res.Err != "" {
+						bad++
+						printResult(res, false)
+					}
+				}
+				fmt.Printf("schema %s: %d functions, %d with open obligations\n", *schema, len(all), bad)
+				return
+			}
+			con = all[*fn]
 		}
 		res := e.verifyOne(*fn, con, o)
-		printResult(res, true)
+		printResult(res, *verbose)
 		if *keep {
 			fmt.Println("workdir:", work)
 		}
